@@ -201,9 +201,9 @@ def work(job):
     with open(os.path.join(tree, relfile), "w") as f:
       f.write(mutated)
     if not skip_tests:
-      rc, out = sh("sh %s/tools/baseline.sh %s" % (ROOT, tree))
+      rc, out = sh("timeout -k 5 180 sh %s/tools/baseline.sh %s" % (ROOT, tree))
       if rc != 0:
-        res["status"] = "killed-by-tests"
+        res["status"] = "killed-by-tests" if rc not in (124, 137) else "killed-by-tests(hang)"
         return res
     res["checks"] = {}
     status = "SURVIVED"
